@@ -19,8 +19,21 @@ def main(path):
         from pyvc import task as T
         print("earlier calls (history the failure needs):", wit.get("__earlier_calls__"))
         fns = T.run_prelude(wit["__prelude__"])
+    earlier = wit.get("__earlier_samples__") if isinstance(wit, dict) else None
     if isinstance(wit, dict):
         wit = {k: v for k, v in wit.items() if not k.startswith("__") or k == "__schedule__"}
+    if earlier:
+        ok, c, s = t.native_agree(dict(wit))
+        if not ok:
+            print(f"witness {wit!r}: real code -> {c!r}; sidecar spec -> {s!r}")
+            print("REPRODUCED: the real code breaks the contract on this input (alone, no history needed)")
+            return 1
+        print(f"alone the input agrees with the spec; replaying the {len(earlier)} earlier calls of the recorded sequence first")
+        for e in earlier:
+            try:
+                t.native_agree(e)
+            except Exception:  # noqa: BLE001
+                pass
     try:
         ok, c, s = t.native_agree(wit)
     finally:
